@@ -288,7 +288,8 @@ pub fn build_sys_config(root: &str, id: u64, auto_init: bool, join: Option<u64>,
     c.cluster_token = Arc::new(cfg.cluster_token.clone());
     c.naming_health_timeout = cfg.naming_health_timeout;
     c.naming_instance_timeout = cfg.naming_instance_timeout;
-    c.naming_perpetual_instance_probe_interval = 0;
+    // persistent instances are health-probed over a real TCP connection: outside the seams, switched off
+    c.naming_perpetual_instance_probe_interval = 2_000_000_000;
     c.openapi_login_timeout = cfg.openapi_login_timeout;
     c.console_login_timeout = cfg.console_login_timeout;
     c.console_captcha_enable = false;
